@@ -1359,6 +1359,23 @@ func linForm(k *Keyer, v ssa.Value, sign int64, out map[string]int64, konst *int
 			linForm(k, x.X, -sign, out, konst, depth+1)
 			return
 		}
+	case *ssa.Call:
+		// len(s[l:h]) is h − l (l defaults to 0, h to len(s)) wherever the slice expression did not panic
+		if bi, ok := x.Call.Value.(*ssa.Builtin); ok && bi.Name() == "len" && len(x.Call.Args) == 1 {
+			if sl, ok := resolveLocal(x.Call.Args[0]).(*ssa.Slice); ok && sl.Max == nil {
+				if _, isSlice := sl.X.Type().Underlying().(*types.Slice); isSlice {
+					if sl.High != nil {
+						linForm(k, sl.High, sign, out, konst, depth+1)
+					} else {
+						out["len("+k.Key(sl.X)+")"] += sign
+					}
+					if sl.Low != nil {
+						linForm(k, sl.Low, -sign, out, konst, depth+1)
+					}
+					return
+				}
+			}
+		}
 	case *ssa.BinOp:
 		switch x.Op {
 		case token.ADD:
